@@ -2,9 +2,9 @@ SPECIFICATION TSpec
 CONSTANTS
   BaseKeys = {"s1", "s2", "s3"}
   BlindKeys = {"b1", "b2", "b3", "b4", "lead0", "geN", "one"}
-  Contexts = {"", "ctxA", "ctxB", "long"}
+  Contexts = {"", "ctxA", "ctxB", "long", "rare1", "rare2"}
   Digests = {"d0", "d1", "d2", "dlong", "dlong0", "dlongf"}
   MaxDepth = 100
   Deterministic = FALSE
-  Enforce = {"quiet", "known-input", "op-ok", "key-identity", "matches-reference", "signature-identity", "fork-verdict", "std-verdict", "unknown-event"}
+  Enforce = {"quiet", "known-input", "op-ok", "key-identity", "matches-reference", "signature-identity", "fork-verdict", "context-matters", "invalid-key-refused", "std-verdict", "unknown-event"}
 CHECK_DEADLOCK FALSE
